@@ -96,6 +96,11 @@ class LowerBase:
     def resolve_base(self, base, ctx_node):
         """base type name -> ('c', ctype) | ('rec', id) | ('enum', id)"""
         b = base.strip()
+        if b.startswith('(lambda at '):
+            rid = self.ast.lambda_by_type.get(b)
+            if rid is None:
+                raise Unsupported('closure type %s not found' % b)
+            return ('rec', rid)
         if 'type-parameter-' in b:
             # member typedef named through the (dependent-looking) printed form of a partial specialisation:
             # resolve the member name in the context of the instantiation instead
@@ -206,7 +211,7 @@ class LowerBase:
     def tinfo(self, tstr, ctx_node):
         """-> dict(kind='c'|'rec'|'enum', c=<C type of base>, suf=[...], rec=id)"""
         base, suf = parse_type(tstr)
-        if self.has_top_paren(base) and not base.startswith('decltype'):
+        if self.has_top_paren(base) and not base.startswith('decltype') and not base.startswith('(lambda at '):
             # function / pointer-to-function type: opaque
             return {'kind': 'c', 'c': 'void', 'suf': ['*'], 'rec': None, 'fn': True}
         r = self.resolve_base(base, ctx_node)
@@ -416,6 +421,9 @@ class LowerBase:
         if best is None:
             n = self.ast.node(rid)
             best = self.ast.qualname(n) + '@' + self.ast.loc(n)
+            # closure types of different instantiations of one template share a C struct when their captures agree
+            if self.is_lambda(n):
+                best += '[' + ', '.join(self.ast.tstr(f['type']) for f in self.ast.fields(n)) + ']'
         return best
 
     def need_record(self, rid):
@@ -426,6 +434,10 @@ class LowerBase:
             raise Unsupported('recursive by-value record ' + self.rec_pretty(rid))
         self.rec_emitting.add(rid)
         n = self.ast.node(rid)
+        if self.model_record(rid):
+            self.rec_text[rid] = self.model_struct(rid)
+            self.rec_order.append(rid); self.rec_done.add(rid); self.rec_emitting.discard(rid)
+            return
         if not n.get('completeDefinition') or (self.rec_is_external(rid) and not self.model_record(rid)):
             # opaque: external type (std::string etc.); modelled as an opaque blob
             tag = self.rec_tag(rid)
@@ -439,15 +451,37 @@ class LowerBase:
             ti = self.tinfo(ts, n)
             lines.append('  %s;' % self.decl_of(ti, '_b%d' % bi))
             bi += 1
-        for f in self.ast.fields(n):
+        lam_inits = None
+        if self.is_lambda(n):
+            lam = self.ast.parent.get(n['id'])
+            if lam is not None and lam.get('kind') == 'LambdaExpr':
+                lam_inits = [c for c in lam.get('inner', [])[1:] if c.get('kind') not in ('CompoundStmt',)]
+        for fi_, f in enumerate(self.ast.fields(n)):
             ts = self.ast.tstr(f['type'])
-            ti = self.tinfo(ts, n)
+            try:
+                ti = self.tinfo(ts, n)
+            except Unsupported:
+                # capture field printed with partially qualified sugar: take the type of the captured entity
+                if lam_inits is None or fi_ >= len(lam_inits):
+                    raise
+                its = self.ast.tstr(lam_inits[fi_]['type'])
+                if ts.rstrip().endswith('&'):
+                    its += ' &'
+                ti = self.tinfo(its, lam_inits[fi_])
             fname = self.field_cname(f)
             lines.append('  %s;' % self.decl_of(ti, fname))
         if not lines:
             lines.append('  char _empty;')
         tag = self.rec_tag(rid)
-        self.rec_text[rid] = 'struct %s { /* %s */\n%s\n};' % (tag, self.rec_pretty(rid), '\n'.join(lines))
+        text = 'struct %s { /* %s */\n%s\n};' % (tag, self.rec_pretty(rid), '\n'.join(lines))
+        for orid, otext in self.rec_text.items():
+            if self.rec_names.get(orid) == tag:
+                if otext != text:
+                    raise Unsupported('two different records lower to the same tag %s' % tag)
+                # same printed type, same layout (closure types of different instantiations): one C struct
+                self.rec_done.add(rid); self.rec_emitting.discard(rid)
+                return
+        self.rec_text[rid] = text
         self.rec_order.append(rid)
         self.rec_done.add(rid)
         self.rec_emitting.discard(rid)
@@ -787,8 +821,8 @@ class Lowerer(ModelMixin, StmtMixin, ExprMixin, LowerBase):
             parts.append('#define VF_EXC_%s %d /* %s */' % (sanitize(t.split('<')[0].split('::')[-1]).upper(), i, t))
         parts.append(self.isa_table())
         parts.append('/* ---- records ---- */')
-        for rid in self.rec_names:
-            parts.append('struct %s;' % self.rec_names[rid])
+        for tag in sorted(set(self.rec_names.values())):
+            parts.append('struct %s;' % tag)
         for rid in self.rec_order:
             parts.append(self.rec_text[rid])
         # aliases declared in namespace vf
